@@ -346,6 +346,30 @@ func run(c *vk.Ctx, can *rig.Canary, sc scen, idx int) {
 		if disconnected() {
 			c.Violate(key("disconnected-live-peer"), desc+": the session was disconnected although the peer was never silent for a whole period", replay)
 		}
+	case "ends-in-the-last-tenth-of-the-period":
+		// as above, but the message arrives T/20 before the period ends: behind the timer's last poll before the deadline
+		time.Sleep(time.Until(lastIn.Add(T - T/20)))
+		fr := frames()
+		if overloaded() {
+			return
+		}
+		if n := len(testRequests(fr)); n != 0 && time.Since(lastIn) < T-T/20-10*time.Millisecond {
+			c.Violate(key("testrequest-before-the-period-elapsed"), fmt.Sprintf("%s: %d TestRequest(s) written although only %v of silence had passed (period %v)", desc, n, time.Since(lastIn).Round(time.Millisecond), T), replay)
+		}
+		t1 := feed()
+		nontrivial = true
+		// the message restarts the period: nothing for another T-0.3
+		time.Sleep(time.Until(t1.Add(T - T/20 - 50*time.Millisecond)))
+		fr = frames()
+		if overloaded() {
+			return
+		}
+		if n := len(testRequests(fr)); n != 0 {
+			c.Violate(key("testrequest-despite-traffic"), fmt.Sprintf("%s: %d TestRequest(s) though the peer was never silent for a whole period", desc, n), replay)
+		}
+		if disconnected() {
+			c.Violate(key("disconnected-live-peer"), desc+": the session was disconnected although the peer was never silent for a whole period", replay)
+		}
 	case "ends-just-after-deadline", "answer-10%", "answer-50%", "answer-90%":
 		tr, ok := awaitTestRequest(lastIn, 0)
 		if overloaded() {
@@ -432,7 +456,7 @@ func main() {
 	k := 0
 	for _, role := range []rig.Role{rig.Acceptor, rig.Initiator} {
 		for _, n := range ns {
-			for _, p := range []string{"total-silence", "total-silence-first-testrequest-cannot-be-sent", "second-message-then-silence", "ends-just-before-deadline", "ends-just-after-deadline", "answer-10%", "answer-50%", "answer-90%", "steady-traffic"} {
+			for _, p := range []string{"total-silence", "total-silence-first-testrequest-cannot-be-sent", "second-message-then-silence", "ends-just-before-deadline", "ends-in-the-last-tenth-of-the-period", "ends-just-after-deadline", "answer-10%", "answer-50%", "answer-90%", "steady-traffic"} {
 				if p == "steady-traffic" && n > 5 {
 					continue
 				}
@@ -475,6 +499,13 @@ func main() {
 				scs = append(scs, scen{role, 2, p, "heartbeat", 0})
 			}
 		}
+	}
+	// a message in the last tenth of the period (both roles, also in the quick tier)
+	for _, role := range []rig.Role{rig.Acceptor, rig.Initiator} {
+		if !c.Thorough() {
+			scs = append(scs, scen{role, 1, "ends-in-the-last-tenth-of-the-period", "heartbeat", 0})
+		}
+		scs = append(scs, scen{role, 2, "ends-in-the-last-tenth-of-the-period", "app", 0})
 	}
 	// the application's own disconnect callback reads the session's state
 	for _, role := range []rig.Role{rig.Acceptor, rig.Initiator} {
